@@ -283,7 +283,7 @@ func (c *c05ctx) run(in []byte, harness string, heavy bool) {
 func c05Body(w *W) {
 	c := &c05ctx{w: w, g: newGuardRegion()}
 	for i := range c.sess {
-		c.sess[i] = &parseSession{}
+		c.sess[i] = &parseSession{track: w.cur}
 	}
 	if c.g == nil {
 		w.Note("guard pages unavailable (mmap/mprotect failed): inputs are placed in ordinary heap memory")
@@ -406,9 +406,10 @@ func c05Replay(v *Violation) string {
 func init() {
 	register(&check{
 		prop: "C05", name: "no-crash-no-hang", level: "model_checking",
-		rule:   "Trivial model: the call returns exactly one of (result, error), nothing panics or faults, every traversal/lookup/marshal call on a result terminates within its step budget, and no internal goroutine outlives the call. Inputs, all enumerated completely: the C01 spaces (byte strings, token sequences, alignment, flush-edge, 8 KiB probes), the single-edit closure of 20 seed documents (prefixes, suffixes, 256-way substitution, deletion, insertion, swaps), adversarial ladders around 64/128/448/512/8192 and every multiple of the index-buffer flush threshold up to 17 (ring wrap) plus 10^5 (10^6), and the C08 line-sequence space; Parse and ParseND, all four configs, reused and fresh objects, inputs placed flush against PROT_NONE guard pages on either side. A watchdog turns a stuck call into a replayed, confirmed violation. states=enumeration nodes, transitions=inputs, traces_validated=calls judged; distinct_nontrivial=distinct accepted tapes.",
+		rule:   "Trivial model: the call returns exactly one of (result, error), nothing panics or faults, every traversal/lookup/marshal call on a result terminates within its step budget, and no internal goroutine outlives the call. Inputs, all enumerated completely: the C01 spaces (byte strings, token sequences, alignment, flush-edge, 8 KiB probes), the single-edit closure of 20 seed documents (prefixes, suffixes, 256-way substitution, deletion, insertion, swaps), adversarial ladders around 64/128/448/512/8192 and every multiple of the index-buffer flush threshold up to 17 (ring wrap) plus 10^5 (10^6), and the C08 line-sequence space; Parse and ParseND, all four configs, reused and fresh objects, inputs placed flush against PROT_NONE guard pages on either side. Poison sequences: a rejected multi-buffer document followed by valid ones on the same reused parser state. A watchdog turns a stuck call into a replayed, confirmed violation; a death the dying input alone does not reproduce is replayed together with the input the same parser state processed before it. states=enumeration nodes, transitions=inputs, traces_validated=calls judged; distinct_nontrivial=distinct accepted tapes.",
 		assume: []string{"hang detection for uninstrumented code is a 100 s no-progress watchdog, confirmed by three replays in fresh processes", "stage deadlock on failure paths is additionally decided by schedule exploration in C07"},
 		body:   c05Body,
 		replay: c05Replay,
+		seqSep: c05SeqSep,
 	})
 }
